@@ -68,6 +68,8 @@ def scatter(rng, groups):
 
 
 def check_case(ctx, case):
+    if case.get("gen") == "history_model":
+        return history_model_case(ctx, case)
     ctx.evaluated()
     groups = case["groups"]
     stmts = build(groups, case.get("inserts", {}), case.get("order"))
@@ -110,6 +112,25 @@ def check_case(ctx, case):
         ctx.obs["statement_buffer_contract_witnesses"] += 1
     ctx.obs["entities_compared"] += len(expected)
     ctx.obs["inserted_unsupported"] += sum(len(v) for v in case.get("inserts", {}).values())
+
+
+def history_model_case(ctx, case):
+    from vf.checks import c04
+    ctx.evaluated()
+    r = parse(case["script"])
+    ctx.obs["model_checked_histories"] += 1
+    if r[0] == "exc":
+        ctx.violation("exception", case, {"exception": r[1], "message": r[2]})
+        return
+    ents = entities(r[1])
+    if len(ents) != len(case["model"]):
+        ctx.violation("entity_count", case, {"observed": len(ents), "expected": len(case["model"])})
+        return
+    for ent, t in zip(ents, case["model"]):
+        errs = c04.compare(ent, t)
+        if errs:
+            ctx.violation("alter_outcome_differs_from_sequential_model", case, {"table": [t["schema"], t["name"]], "diffs": [(w, short(o, 200), short(x, 200)) for w, o, x in errs[:3]]})
+            return
 
 
 def _stmt_contract(self, result, old, *a, **kw):
@@ -223,6 +244,18 @@ def run_shard(ctx):
         bad = rng.choice(["SELECT a ^ b FROM t;", "UPDATE t SET a = a ^ 1;", "SELECT 2 ^ 10;", "CALL p(1 ^ 2);"])
         check_case(ctx, {"gen": "lexer_reject", "feature": "lexer_reject", "groups": groups, "inserts": {str(rng.randrange(n_items + 1)): [bad]}})
         ctx.obs["lexer_reject_cases"] += 1
+    # (7) ALTER / INDEX histories of the C04 generator with unsupported statements and other groups between the statements: the tables
+    #     must come out exactly as the sequential model says (an ALTER's outcome may depend on nothing but its own table's history)
+    from vf.checks import c04
+    for j in range(ctx.budget(240, 6000)):
+        h = c04.gen_history(rng)
+        stmts = list(h["stmts"])
+        out = []
+        for st in stmts:
+            if rng.random() < 0.3:
+                out.append(rng.choice(uns)[1] if rng.random() < 0.8 else rng.choice(G.IGNORED))
+            out.append(st)
+        check_case(ctx, {"gen": "history_model", "script": G.script(out), "model": h["model"]})
     # (4) corpus concatenations
     for case in corpus_cases(ctx, ctx.budget(300, 6000)):
         check_case(ctx, case)
